@@ -282,10 +282,19 @@ def gen_parent(rng, genome, modes=("none", "chrom", "chrom_noseq", "chunk"), mus
     p = {"mode": mode, "genome": genome}
     if mode == "chunk":
         L = len(genome["seq"])
-        if must_cover and rng.random() < 0.5:
+        r = rng.random()
+        if must_cover and r < 0.4:
             lo, hi = must_cover
             a = rng.randint(0, lo)
             b = rng.randint(hi, L)
+        elif must_cover and r < 0.8 and must_cover[1] - must_cover[0] >= 4:
+            # a window that cuts the annotated span at one or both ends
+            lo, hi = must_cover
+            mid = (lo + hi) // 2
+            a = rng.randint(lo + 1, mid) if rng.random() < 0.7 else rng.randint(0, lo)
+            b = rng.randint(mid + 1, hi - 1) if rng.random() < 0.7 else rng.randint(hi, L)
+            if b <= a:
+                a, b = lo, hi
         else:
             a = rng.randint(0, max(0, L - 2))
             b = rng.randint(a + 1, L)
@@ -425,7 +434,7 @@ def gen_location(rng, L, parent=None, allow_empty=True, allow_overlap=True):
     return loc
 
 
-def gen_parent_hierarchy(rng, depth=None, leaf_len=None):
+def gen_parent_hierarchy(rng, depth=None, leaf_len=None, seqless=False):
     """A chain of coordinate systems: each level is a Parent with (optionally) sequence, placed on its own parent
     by a location.  Returned innermost-first description usable as the ``parent`` of a location of length
     <= leaf_len."""
@@ -438,7 +447,7 @@ def gen_parent_hierarchy(rng, depth=None, leaf_len=None):
     node = {
         "id": "root",
         "sequence_type": rng.choice(["chromosome", "chromosome", "contig", None]),
-        "sequence": {"data": top_seq, "alphabet": "NT_EXTENDED_GAPPED", "id": "root", "type": None} if rng.random() < 0.8 else None,
+        "sequence": {"data": top_seq, "alphabet": "NT_EXTENDED_GAPPED", "id": "root", "type": None} if (rng.random() < 0.8 and not seqless) else None,
         "location": None,
         "parent": None,
     }
@@ -466,7 +475,8 @@ def gen_parent_hierarchy(rng, depth=None, leaf_len=None):
         node = {
             "id": f"lvl{d}",
             "sequence_type": stype,
-            "sequence": {"data": sub, "alphabet": "NT_EXTENDED_GAPPED", "id": f"lvl{d}", "type": stype},
+            # seqless: a coordinate system known only by id/type, placed on its parent by a location (no Sequence object)
+            "sequence": None if seqless else {"data": sub, "alphabet": "NT_EXTENDED_GAPPED", "id": f"lvl{d}", "type": stype},
             "location_on_parent": loc,
             "parent_desc": parent_desc,
         }
